@@ -436,7 +436,7 @@ Lemma ikind_eqb_refl k : ikind_eqb k k = true. Proof. destruct k; reflexivity. Q
 
 Lemma xeqv_plain_refl f v : plain v = true -> xeqv (S f) v v = true.
 Proof.
-  destruct v; cbn [plain]; try discriminate; intros _; cbn [xeqv int_payload is_empty_container andb].
+  destruct v; cbn [plain]; try discriminate; intros _; lazy beta iota zeta delta [xeqv int_payload is_empty_container andb].
   - reflexivity.
   - destruct b; reflexivity.
   - rewrite ikind_eqb_refl, Z.eqb_refl. reflexivity.
@@ -884,6 +884,9 @@ Proof.
      end); eexists; reflexivity.
 Qed.
 
+Lemma xeqv_ptr n a b : xeqv (S n) (XPtr a) (XPtr b) = xeqv n a b.
+Proof. reflexivity. Qed.
+
 (* C06 behind one pointer: *T for T in bool, the integer kinds, string, []byte, time.Time, uuid.UUID *)
 Definition proved_ptr (t : gtype) : bool := proved_scalar t && ptr_scalar t.
 
@@ -914,13 +917,13 @@ Proof.
       destruct (ptr_scalar_leaf t Hpt) as (s' & Hs' & _ & _ & _ & _ & Hpost). rewrite Hs0 in Hs'. inversion Hs'; subst s'.
       rewrite Hpost in Hp. exists (XPtr v'). split.
       * apply (dec_top_ptr_value orc opts te f t w s v' Hpt Hs0 Hn Ha Hp).
-      * specialize (Hx 198%nat). rewrite Hpost in Hx. exact Hx.
+      * unfold spec_fuel. rewrite (xeqv_ptr 199 v' v0). specialize (Hx 198%nat). rewrite Hpost in Hx. exact Hx.
     + destruct t; try discriminate. cbn in Hs0. inversion Hs0; subst s.
       pose proof (int_arm_value orc k w v0 L1 Hs Hw Hr0) as Ha.
       pose proof (int_rep_plain orc k w v0 Hs Hr0) as Hp.
       exists (XPtr v0). split.
       * apply (dec_top_ptr_value orc opts te f (TInt k) w (SInt k) v0 Hpt eq_refl Hn Ha Hp).
-      * change (xeqv spec_fuel (XPtr v0) (XPtr v0)) with (xeqv 199 v0 v0). apply xeqv_plain_refl. exact Hp.
+      * unfold spec_fuel. rewrite (xeqv_ptr 199 v0 v0). apply xeqv_plain_refl. exact Hp.
 Qed.
 
 Theorem refuses_ptr_scalar_partial orc opts te f t w :
